@@ -8,7 +8,12 @@ import re
 KINDS = [
     "crash_prefix", "torn_tail", "lost_block", "dup_block", "swap_blocks",
     "line_del", "line_dup", "line_swap", "bitflip", "char_sub", "field_overwrite", "garbage_block", "line_blowup", "deep_nesting",
+    "sep_insert", "int_nudge", "token_drop",
 ]
+
+# characters that str.splitlines() treats as line boundaries although a text file does not (valid UTF-8)
+SEPARATORS = ["\x0b", "\x0c", "\x1c", "\x1d", "\x1e", "\u0085", "\u2028", "\u2029"]
+INT_RE = re.compile(rb"(?<![\w.+-])\d+(?![\w.])")
 
 NUM_RE = re.compile(rb"(?<![A-Za-z_])[-+]?(?:\d+\.?\d*|\.\d+)(?:[eEdD][-+]?\d+)?")
 TOKENS = ["abc", "1e999x", "--", "nan", "1e999", "-1", "0", "99999999", "123456789012345678901234567890",
@@ -97,6 +102,37 @@ def apply(data, f):
         if off >= len(data):
             return data
         return data[:off] + bytes([f["byte"]]) + data[off + 1:]
+    if kind == "sep_insert":
+        off = min(f["off"], len(data))
+        sep = f["sep"].encode("utf-8")
+        return data[:off] + sep + data[off + (1 if f.get("replace") and off < len(data) and data[off:off + 1] == b" " else 0):]
+    if kind == "int_nudge":
+        # an integer token (a count, an index) becomes another plausible integer
+        toks = list(INT_RE.finditer(data))
+        if not toks:
+            return data
+        m = toks[f["i"] % len(toks)]
+        old = int(m.group())
+        new = {"dec": max(0, old - 1), "inc": old + 1, "half": old // 2, "double": old * 2, "minus2": max(0, old - 2), "third": old // 3,
+               "minus3": max(0, old - 3)}[f["how"]]
+        txt = str(new).encode()
+        if len(txt) < m.end() - m.start():
+            txt = txt.rjust(m.end() - m.start())
+        return data[: m.start()] + txt + data[m.end():]
+    if kind == "token_drop":
+        # the tail of a line is lost from some token on (a record written incompletely)
+        ls = _lines(data)
+        i = f["line"]
+        if i >= len(ls):
+            return data
+        body = ls[i].rstrip(b"\r\n")
+        eol = ls[i][len(body):]
+        toks = list(re.finditer(rb"\S+", body))
+        if len(toks) < 2:
+            return data
+        k = 1 + f["keep"] % (len(toks) - 1)
+        ls[i] = body[: toks[k - 1].end()] + eol
+        return b"".join(ls)
     if kind == "field_overwrite":
         ls = _lines(data)
         i = f["line"]
@@ -189,6 +225,13 @@ def random_fault(rng, data, kind, raw_offsets=None):
     if kind == "char_sub":
         return {"kind": kind, "off": rng.randrange(max(1, n)),
                 "byte": rng.choice([0, 9, 10, 32, 45, 46, 48, 57, 65, 101, 127, 128, 195, 255])}
+    if kind == "sep_insert":
+        return {"kind": kind, "off": rng.randrange(max(1, n)), "sep": rng.choice(SEPARATORS), "replace": rng.random() < 0.5}
+    if kind == "int_nudge":
+        return {"kind": kind, "i": rng.randrange(1 << 20), "how": rng.choice(["dec", "inc", "half", "double", "minus2", "third", "minus3"])}
+    if kind == "token_drop":
+        nls = numeric_lines(data)
+        return {"kind": kind, "line": rng.choice(nls) if nls else 0, "keep": rng.randrange(8)}
     if kind == "field_overwrite":
         nls = numeric_lines(data)
         line = rng.choice(nls) if nls else 0
